@@ -130,7 +130,17 @@ def ids_ok(sim):
     i = bound(StrT, "i_ids")
     return And(*[forall([i], Implies(getattr(sim, e).has(i), getattr(sim, e).get(i).val().id == i))
                  for e in ("vehicles", "stations", "bases", "requests")],
-               forall([i], Implies(sim.vehicles.has(i), sim.vehicles.get(i).val().vehicle_state.vehicle_id == i)))
+               forall([i], Implies(sim.vehicles.has(i), And(sim.vehicles.get(i).val().vehicle_state.vehicle_id == i,
+                                                            driver_vid(sim.vehicles.get(i).val().driver_state) == i))))
+
+
+def driver_vid(ds):
+    """the vehicle a driver state belongs to (every DriverState class carries it in its attributes)"""
+    e = None
+    for m in ds.ty.members():
+        v = ds.as_a(m).attributes.vehicle_id
+        e = v if e is None else Ite(ds.is_a(m), v, e)
+    return e
 
 
 def wf(sim):
